@@ -18,6 +18,7 @@ type StepRecipe struct {
 	HasSignals bool        `json:"signals,omitempty"`
 	WithInit   bool        `json:"init,omitempty"`
 	Emitter    bool        `json:"emitter,omitempty"`
+	AnyData    bool        `json:"any_data,omitempty"` // step data type `any` and no initializer (the hello-world shape)
 }
 
 // PluginRecipe describes a generated plugin schema.
@@ -149,7 +150,17 @@ func BuildPlugin(pr *PluginRecipe, rec *Recorder) *schema.CallableSchema {
 			}
 			return "success", in
 		}
-		if sr.HasSignals {
+		if sr.HasSignals && sr.AnyData {
+			sigs := map[string]schema.CallableSignal{
+				"poke": schema.NewCallableSignal[any, any]("poke", pokeScope(), disp("poke"), func(ctx context.Context, data any, in any) {
+					rt.Yield(siteSignalH)
+					rec.record(Invocation{Step: stepID, Signal: "poke", Arg: in})
+				}),
+			}
+			steps = append(steps, schema.NewCallableStepWithSignals[any, any](stepID, input, outputs, sigs, nil, disp(stepID), nil, func(ctx context.Context, _ any, in any) (string, any) {
+				return handler(ctx, nil, in)
+			}))
+		} else if sr.HasSignals {
 			sigs := map[string]schema.CallableSignal{
 				"poke": schema.NewCallableSignal[*Token, any]("poke", pokeScope(), disp("poke"), func(ctx context.Context, tok *Token, in any) {
 					rt.Yield(siteSignalH)
